@@ -550,7 +550,8 @@ def extract(I, sched, numbers):
     """result record R from a Schedule object"""
     n = len(I["tasks"])
     R = {"out": "ok", "start": [MISSING] * n, "end": [MISSING] * n, "est": [NOQ] * n, "spent": [NOQ] * n,
-         "wstart": MISSING, "wend": MISSING, "rows": [], "inexact": False, "overflow": False, "foreign": 0}
+         "wstart": MISSING, "wend": MISSING, "rows": [], "inexact": False, "overflow": False, "foreign": 0,
+         "sx": [False] * n, "ex": [False] * n}         # the date has a part below the minute (minutes are floored)
     byid = {}
     for t in sched.schedule.tasks:
         byid.setdefault(t.id, t)
@@ -564,6 +565,7 @@ def extract(I, sched, numbers):
             m, ex = tmin(key)
             R[fld][i - 1] = m
             R["inexact"] = R["inexact"] or not ex
+            R["sx" if fld == "start" else "ex"][i - 1] = not ex
         R["est"][i - 1] = cal.to_q(t.estimate)
         R["spent"][i - 1] = cal.to_q(t.spent)
     m, ex = tmin(sched.schedule.start)
